@@ -134,6 +134,13 @@ def build_ops(K, rng, slot=0, vid_base=0, noise=0.0, permute=True):
         items = [(cat, arch, val) for cat, t in v["paths"].items() for arch, val in t.items()]
         if permute:
             rng.shuffle(items)
+        whole = [cat for cat in sorted(v["paths"]) if v["paths"][cat] and rng.random() < 0.25]
+        for cat in whole:
+            # this category is assigned as a whole table instead of being filled entry by entry
+            p = {"op": "var_path_table", "var": vid_base + v["n"], "cat": cat, "table": dict(v["paths"][cat])}
+            p.update(sl)
+            path_ops.append(p)
+        items = [it for it in items if it[0] not in whole]
         for cat, arch, val in items:
             p = {"op": "var_path", "var": vid_base + v["n"], "cat": cat, "arch": arch, "value": val}
             p.update(sl)
@@ -146,7 +153,8 @@ def build_ops(K, rng, slot=0, vid_base=0, noise=0.0, permute=True):
     placed = []
     for o in rest:
         if noise and rng.random() < noise:
-            ops.append(noise_op(K, rng, slot, vid_base, placed))
+            extra = noise_op(K, rng, slot, vid_base, placed)
+            ops.extend(extra if isinstance(extra, list) else [extra])
         ops.append(o)
         if o["op"] == "var_add":
             placed.append(o["var"] - vid_base)
@@ -157,10 +165,19 @@ def noise_op(K, rng, slot, vid_base, placed=()):
     """A redundant or refused call that must not change the content."""
     sl = {"slot": slot} if slot else {}
     r = rng.random()
-    if r < 0.4:
+    if r < 0.25:
         o = {"op": "ci_set", "sec": "compose", "field": "respin", "value": K["compose"]["respin"]}
-    elif r < 0.7:
+    elif r < 0.4:
         o = {"op": "ci_set", "sec": "release", "field": "name", "value": K["release"]["name"]}
+    elif r < 0.55:
+        # a variant whose id is not a legal id (everything else about it is in order) is offered to the top container
+        bad = pick(rng, ["S\u00e9rver", "Server\u00b2", "\uff33erver", "\u0421\u0435\u0440\u0432\u0435\u0440", "x\u0663", "a b", "x_y", "x.y", "Zed\n", "Z-ed"])
+        vid = vid_base + 700 + rng.randint(0, 90)
+        new = {"op": "var_new", "vid": vid, "id": bad, "uid": bad, "name": "Odd id", "type": "variant", "arches": ["x86_64"]}
+        add = {"op": "var_add", "var": vid, "into": "top"}
+        new.update(sl)
+        add.update(sl)
+        return [new, add]
     elif r < 0.8 or len(K["vars"]) < 2 or not placed:
         o = {"op": "dumps"}
     else:
@@ -225,7 +242,7 @@ BP_POISON = [
     ("base_product", "type", [None, "GA", "beta", "", "bogus", "lts"]),
 ]
 VAR_POISON = [
-    ("id", [None, 5, "Ser-ver", "", "a b", "x_y"]),
+    ("id", [None, 5, "Ser-ver", "", "a b", "x_y", "S\u00e9rver", "Server\u00b2", "\uff33erver", "\u0421\u0435\u0440\u0432\u0435\u0440", "\u0663", "Server\n"]),
     ("uid", ["Mis-aligned", "zzz"]),
     ("name", [None, "", 5]),
     ("type", [None, "layered", "Variant", ""]),
@@ -264,6 +281,12 @@ def poison_sites(K):
             for fa in pools.foreign_arches(p["arches"], v["arches"])[:4]:
                 sites.append({"kind": "var", "var": v["n"], "field": "arches", "bad": sorted(v["arches"] + [fa]), "good": v["arches"]})
         sites.append({"kind": "var-inplace", "var": v["n"], "how": "clear", "good": v["arches"]})
+        if not any(c["parent"] == v["n"] for c in K["vars"]) and not v["dashed"]:
+            # a RENAME: id and uid changed in step, so that nothing but the id's own format stands against writing it
+            puid = None if v["parent"] is None else K["vars"][v["parent"]]["uid"]
+            for bad in ["S\u00e9rver", "Server\u00b2", "\uff33erver", "\u0421\u0435\u0440\u0432\u0435\u0440", "x\u0663", "a b", "x_y", "x.y", "Server\n"]:
+                sites.append({"kind": "var-rename", "var": v["n"], "bad": {"id": bad, "uid": bad if puid is None else "%s-%s" % (puid, bad)},
+                              "good": {"id": v["id"], "uid": v["uid"]}})
         if v["parent"] is not None:
             p = K["vars"][v["parent"]]
             for fa in pools.foreign_arches(p["arches"], v["arches"])[:3]:
@@ -280,6 +303,9 @@ def poison_ops(site, slot=0):
     if site["kind"] == "sec":
         p = {"op": "ci_set", "sec": site["sec"], "field": site["field"], "value": site["bad"]}
         h = {"op": "ci_set", "sec": site["sec"], "field": site["field"], "value": site["good"]}
+    elif site["kind"] == "var-rename":
+        p = {"op": "var_set_many", "var": site["var"], "fields": dict(site["bad"])}
+        h = {"op": "var_set_many", "var": site["var"], "fields": dict(site["good"])}
     elif site["kind"] == "var-inplace":
         p = {"op": "var_arches_inplace", "var": site["var"], "how": site["how"], "value": site.get("value")}
         h = {"op": "var_set", "var": site["var"], "field": "arches", "value": site["good"]}
